@@ -33,3 +33,24 @@ package models
 //@     && k1 + "=" + a1 + "," + k2 + "=" + a2 == k1 + "=" + b1 + "," + k2 + "=" + b2 ==> a1 == b1 && a2 == b2
 // (Not claimed: the companion lemma "injective when the values contain no delimiter" -- word
 // equations with str.contains; all three solvers time out.)
+
+// ---------------------------------------------------------------- point.go Copy (C10)
+// A copy is a map that did not exist before with exactly the entries of the original.
+//@ func (Fields).Copy
+//@   props C10
+//@   modifies nothing
+//@   ensures result != nil && fresh(result)
+//@   ensures forall k string :: has(result, k) == has(f, k) && result[k] == f[k]
+//@   loop 1
+//@     modifies map(cf)
+//@     invariant cf != nil && fresh(cf)
+//@     invariant forall k string :: has(cf, k) == (seen(k) && has(f, k)) && (has(cf, k) ==> cf[k] == f[k])
+//@ func (Tags).Copy
+//@   props C10
+//@   modifies nothing
+//@   ensures result != nil && fresh(result)
+//@   ensures forall k string :: has(result, k) == has(t, k) && result[k] == t[k]
+//@   loop 1
+//@     modifies map(ct)
+//@     invariant ct != nil && fresh(ct)
+//@     invariant forall k string :: has(ct, k) == (seen(k) && has(t, k)) && (has(ct, k) ==> ct[k] == t[k])
